@@ -108,7 +108,7 @@ theorem splitMemberTarget_Er (cx : Cx) (lo hi : Nat) (sp : Span) : ∀ (left' le
   · rename_i obj' prop' msp
     obtain ⟨obj, prop, sp2, rfl⟩ := Er_strip_member hE
     simp only [Deep] at hD
-    obtain ⟨rfl, hEo, hEp, hDo, hDp⟩ := hD
+    obtain ⟨rfl, hEo, hEp, hDo, hDp, _⟩ := hD
     split
     · simp only [run_bind, run_pure]
       refine ⟨.member obj prop sp2, ?_⟩
